@@ -7,6 +7,9 @@
 //!          with the suffix `a` for its ADD-PATH variant (v4ua, v6mplsa, evpna, ...): 26 NLRI types
 //!   W    = `-` (no MP_UNREACH builder) | `e` (add_withdrawals_from_pdu of a foreign-family PDU: adds nothing) | tok+
 //!   A    = `-` | tok+            tok = <size> | <size>x<count>   (encoded NLRI size in bytes)
+//!          value-carrying lines: every NLRI token is `=<hex>` | `=<hex>x<count>`, the octets of the NLRI (path id
+//!          first for an ADD-PATH type); the value is made by the NLRI type's own parser from exactly these octets.
+//!          A line is value-carrying when any of its tokens starts with `=` (then all NLRI tokens must be values).
 //!   kind = `-` (family default, set_nexthop not called) | v4 | m4 | v6 | m6 | ll | ll2 | vpn4 | vpn6 | empty | unimpl
 //!          | ll3 (set_nexthop_ll_addr alone) | v4ll (set_nexthop(IPv4) then set_nexthop_ll_addr: no such next hop)
 //!          | m6ll (set_nexthop(Multicast(IPv6)) then set_nexthop_ll_addr: refused, update_builder.rs:185)
@@ -15,7 +18,9 @@
 //!   len  = total encoded size of the (non-MP) path attributes, 0 or >= 3; `<len>+mp14`, `<len>+mp15`, `<len>+mp`:
 //!          the attribute map additionally holds a raw (Unimplemented) copy of MP_REACH_NLRI / MP_UNREACH_NLRI / both,
 //!          put there through the public PaMap::add_attribute (audit C06-1a): they must not reach the wire
-//! Reply: per produced PDU `len:nWd:nAnn:attrLen:nhLen:paLenField` as judged by the
+//! Reply: per produced PDU `len:nWd:nAnn:attrLen:nhLen:paLenField` (value-carrying lines: `...:DIGEST` of the
+//! octets of the PDU - `h<hex>` up to 96 octets, `d<FNV-1a 32>.<octet sum mod 2^32>` above; the Lean driver computes
+//! the same digest of `wireBytes`, the byte image of the message its model produces) as judged by the
 //! independent decoder below (written from RFC 4271 / 4760 / 7911 / 8277 / 4364 / 4684 /
 //! 8955 / 4761 / 7432; it shares no code with routecore). The NLRI of the families added later
 //! are encoded by the reference encoders of c05.rs (`ref_enc`), equally independent.
@@ -72,6 +77,29 @@ struct Case {
     /// raw copies of MP_REACH_NLRI / MP_UNREACH_NLRI in the attribute map
     raw14: bool,
     raw15: bool,
+    /// value-carrying line: the octets of every withdrawn / announced NLRI
+    vals: Option<(Vec<Vec<u8>>, Vec<Vec<u8>>)>,
+}
+
+/// `$m!(T)` for the NLRI type `T` of `f`
+macro_rules! with_type {
+    ($f:expr, $m:ident) => {
+        match ($f.b, $f.ap) {
+            (V4u, false) => $m!(Ipv4UnicastNlri), (V4u, true) => $m!(Ipv4UnicastAddpathNlri),
+            (V6u, false) => $m!(Ipv6UnicastNlri), (V6u, true) => $m!(Ipv6UnicastAddpathNlri),
+            (V4m, false) => $m!(Ipv4MulticastNlri), (V4m, true) => $m!(Ipv4MulticastAddpathNlri),
+            (V6m, false) => $m!(Ipv6MulticastNlri), (V6m, true) => $m!(Ipv6MulticastAddpathNlri),
+            (V4mpls, false) => $m!(Ipv4MplsUnicastNlri<Bytes>), (V4mpls, true) => $m!(Ipv4MplsUnicastAddpathNlri<Bytes>),
+            (V6mpls, false) => $m!(Ipv6MplsUnicastNlri<Bytes>), (V6mpls, true) => $m!(Ipv6MplsUnicastAddpathNlri<Bytes>),
+            (V4vpn, false) => $m!(Ipv4MplsVpnUnicastNlri<Bytes>), (V4vpn, true) => $m!(Ipv4MplsVpnUnicastAddpathNlri<Bytes>),
+            (V6vpn, false) => $m!(Ipv6MplsVpnUnicastNlri<Bytes>), (V6vpn, true) => $m!(Ipv6MplsVpnUnicastAddpathNlri<Bytes>),
+            (V4rt, false) => $m!(Ipv4RouteTargetNlri<Bytes>), (V4rt, true) => $m!(Ipv4RouteTargetAddpathNlri<Bytes>),
+            (V4fs, false) => $m!(Ipv4FlowSpecNlri<Bytes>), (V4fs, true) => $m!(Ipv4FlowSpecAddpathNlri<Bytes>),
+            (V6fs, false) => $m!(Ipv6FlowSpecNlri<Bytes>), (V6fs, true) => $m!(Ipv6FlowSpecAddpathNlri<Bytes>),
+            (Vpls, false) => $m!(L2VpnVplsNlri), (Vpls, true) => $m!(L2VpnVplsAddpathNlri),
+            (Evpn, false) => $m!(L2VpnEvpnNlri<Bytes>), (Evpn, true) => $m!(L2VpnEvpnAddpathNlri<Bytes>),
+        }
+    };
 }
 
 // ---------------------------------------------------------------- parsing
@@ -121,6 +149,47 @@ fn toks(f: Fam, ts: &[&str]) -> Option<Vec<usize>> {
     Some(v)
 }
 
+/// strict lower-case hex
+fn unhex_strict(s: &str) -> Option<Vec<u8>> {
+    if s.is_empty() || s.len() % 2 != 0 || !s.bytes().all(|b| b.is_ascii_digit() || (b'a'..=b'f').contains(&b)) { return None; }
+    (0..s.len() / 2).map(|i| u8::from_str_radix(&s[2 * i..2 * i + 2], 16).ok()).collect()
+}
+
+/// the octets are an NLRI of the type: its parser takes all of them and composing the value
+/// gives them back (compose_len agreeing)
+fn nlri_valid(f: Fam, raw: &[u8]) -> bool {
+    macro_rules! ok {
+        ($T:ty) => {{
+            let b = Bytes::copy_from_slice(raw);
+            let mut p = Parser::from_ref(&b);
+            match <$T as NlriParse<'_, Bytes, Bytes>>::parse(&mut p) {
+                Ok(n) if p.remaining() == 0 => {
+                    let mut out: Vec<u8> = Vec::new();
+                    n.compose(&mut out).is_ok() && out == raw && n.compose_len() == raw.len()
+                }
+                _ => false,
+            }
+        }};
+    }
+    with_type!(f, ok)
+}
+
+/// value tokens: `=<hex>` | `=<hex>x<count>`
+fn vtoks(f: Fam, ts: &[&str]) -> Option<Vec<Vec<u8>>> {
+    let mut v = Vec::new();
+    if ts.is_empty() { return None; }
+    for t in ts {
+        let r = t.strip_prefix('=')?;
+        let parts: Vec<&str> = r.split('x').collect();
+        let (h, n) = match parts.as_slice() { [h] => (*h, 1), [h, n] => (*h, num(n)?), _ => return None };
+        if h.len() > 8400 || n == 0 { return None; }
+        let raw = unhex_strict(h)?;
+        if !nlri_valid(f, &raw) { return None; }
+        for _ in 0..n { v.push(raw.clone()); }
+    }
+    Some(v)
+}
+
 fn parse_line(line: &str) -> Option<Case> {
     let w: Vec<&str> = line.split(' ').collect();
     if w.len() < 10 { return None; }
@@ -133,8 +202,17 @@ fn parse_line(line: &str) -> Option<Case> {
     if ia < 4 || ia + 1 >= n - 4 { return None; }
     let wt = &w[3..ia];
     let at = &w[ia + 1..n - 4];
-    let wd = if wt == ["-"] { None } else if wt == ["e"] { Some(vec![]) } else { Some(toks(fam, wt)?) };
-    let ann = if at == ["-"] { vec![] } else { toks(fam, at)? };
+    let concrete = w.iter().any(|t| t.starts_with('='));
+    let (wd, ann, vals) = if concrete {
+        let wv = if wt == ["-"] || wt == ["e"] { vec![] } else { vtoks(fam, wt)? };
+        let av = if at == ["-"] { vec![] } else { vtoks(fam, at)? };
+        let wd = if wt == ["-"] { None } else { Some(wv.iter().map(|x| x.len()).collect()) };
+        (wd, av.iter().map(|x| x.len()).collect(), Some((wv, av)))
+    } else {
+        let wd = if wt == ["-"] { None } else if wt == ["e"] { Some(vec![]) } else { Some(toks(fam, wt)?) };
+        let ann = if at == ["-"] { vec![] } else { toks(fam, at)? };
+        (wd, ann, None)
+    };
     let nh = match w[n - 3] {
         "-" => Nh::Default, "v4" => Nh::V4, "m4" => Nh::M4, "v6" => Nh::V6, "ll" => Nh::Ll, "ll2" => Nh::Ll2,
         "vpn4" => Nh::Vpn4, "vpn6" => Nh::Vpn6, "empty" => Nh::Empty, "unimpl" => Nh::Unimpl, "ll3" => Nh::Ll3, "v4ll" => Nh::V4ll,
@@ -149,7 +227,7 @@ fn parse_line(line: &str) -> Option<Case> {
     };
     let attrs = num(al)?;
     if attrs == 1 || attrs == 2 { return None; }
-    Some(Case { op, fam, wd, ann, nh, attrs, raw14, raw15 })
+    Some(Case { op, fam, wd, ann, nh, attrs, raw14, raw15, vals })
 }
 
 // ---------------------------------------------------------------- inputs: values + reference encodings
@@ -643,6 +721,23 @@ fn afisafi(f: Fam) -> (u16, u8, bool) {
     (a, s, f.ap)
 }
 
+/// octets of NLRI number `idx` of the case (withdrawals count from 1_000_000)
+fn nlri_octets(c: &Case, size: usize, idx: usize) -> Vec<u8> {
+    match &c.vals {
+        Some((wv, av)) => if idx >= 1_000_000 { wv[idx - 1_000_000].clone() } else { av[idx].clone() },
+        None => ref_nlri(c.fam, size, idx),
+    }
+}
+
+fn fnv32(raw: &[u8]) -> u32 { raw.iter().fold(2166136261u32, |h, b| (h ^ *b as u32).wrapping_mul(16777619)) }
+fn sum32(raw: &[u8]) -> u32 { raw.iter().fold(0u32, |s, b| s.wrapping_add(*b as u32)) }
+
+/// short messages in full, longer ones as FNV-1a and octet sum (the Lean driver prints the same of its byte image)
+fn digest(raw: &[u8]) -> String {
+    if raw.len() <= 96 { format!("h{}", raw.iter().map(|b| format!("{:02x}", b)).collect::<String>()) }
+    else { format!("d{}.{}", fnv32(raw), sum32(raw)) }
+}
+
 fn run_case(c: &Case) -> Run {
     let mut cfg = SessionConfig::modern();
     let f = c.fam;
@@ -654,13 +749,15 @@ fn run_case(c: &Case) -> Run {
     // NLRI values built by the family's own parser from the reference encoding
     macro_rules! parsed {
         ($T:ty) => { run_family!(c, $T, &cfg, |s: usize, i: usize| {
-            let raw = Bytes::from(ref_nlri(f, s, i));
+            let raw = Bytes::from(nlri_octets(c, s, i));
             let mut p = Parser::from_ref(&raw);
             let n = <$T as NlriParse<'_, Bytes, Bytes>>::parse(&mut p).unwrap();
             assert_eq!(p.remaining(), 0);
             n
         }) };
     }
+    // a value-carrying line: every value is made by the type's parser from the octets given
+    if c.vals.is_some() { return with_type!(f, parsed); }
     match (f.b, f.ap) {
         // the prefix families also through their constructors
         (V4u, false) => run_family!(c, Ipv4UnicastNlri, &cfg, |s: usize, i: usize| {
@@ -732,8 +829,10 @@ fn judge(c: &Case) -> Verdict {
         return Verdict { reply: "err nexthop".into(), ok: if no_form { Ok(()) } else { Err("an encodable next hop was refused".into()) } };
     }
     let (afi, safi, ap) = afisafi(c.fam);
-    let exp_wd: Vec<Vec<u8>> = c.wd.as_ref().map_or(vec![], |v| v.iter().enumerate().map(|(i, s)| ref_nlri(c.fam, *s, 1_000_000 + i)).collect());
-    let exp_ann: Vec<Vec<u8>> = c.ann.iter().enumerate().map(|(i, s)| ref_nlri(c.fam, *s, i)).collect();
+    let exp_wd: Vec<Vec<u8>> = c.wd.as_ref().map_or(vec![], |v| v.iter().enumerate().map(|(i, s)| nlri_octets(c, *s, 1_000_000 + i)).collect());
+    let exp_ann: Vec<Vec<u8>> = c.ann.iter().enumerate().map(|(i, s)| nlri_octets(c, *s, i)).collect();
+    // value-carrying lines: the reply carries a digest of the octets of every PDU
+    let dg = |raw: &[u8]| if c.vals.is_some() { format!(":{}", digest(raw)) } else { String::new() };
     let exp_attrs = ref_attrs(c.attrs);
     let exp_nh = ref_nh(c.fam, c.nh);
     let mut why: Vec<String> = Vec::new();
@@ -746,9 +845,9 @@ fn judge(c: &Case) -> Verdict {
         match it {
             Item::Err => { any_err = true; descs.push("E".to_string()); }
             Item::Msg(raw) => match decode_update(raw, afi, safi, ap) {
-                Err(e) => { why.push(format!("message {} is malformed: {}", k, e)); descs.push(format!("malformed({})", e)); }
+                Err(e) => { why.push(format!("message {} is malformed: {}", k, e)); descs.push(format!("malformed({}){}", e, dg(raw))); }
                 Ok(d) => {
-                    descs.push(format!("{}:{}:{}:{}:{}:{}", d.len, d.wd.len(), d.ann.len(), d.other_attrs.len(), d.nh.as_ref().map_or(0, |n| n.len()), d.pa_len));
+                    descs.push(format!("{}:{}:{}:{}:{}:{}{}", d.len, d.wd.len(), d.ann.len(), d.other_attrs.len(), d.nh.as_ref().map_or(0, |n| n.len()), d.pa_len, dg(raw)));
                     if d.len > MAX_PDU { why.push(format!("message {} has {} bytes (> 4096)", k, d.len)); }
                     if !d.ann.is_empty() {
                         if d.other_attrs != exp_attrs { why.push(format!("message {} announces NLRI without the full attribute set", k)); }
@@ -837,7 +936,9 @@ impl Prop for C06 {
         let out = if reply == "bad-op" || reply == "panic" || reply == "hang" { reply.to_string() }
             else if reply.starts_with("err") || reply.split(' ').any(|t| t == "E") { "error".to_string() }
             else if n <= 1 { "one-pdu".to_string() } else if n <= 3 { "2-3-pdus".to_string() } else { "4+-pdus".to_string() };
-        format!("{}:{}:{}", op, fam, out)
+        // value-carrying lines (digest of the octets in the reply) are classes of their own
+        let v = if w.iter().any(|t| t.starts_with('=')) { "+bytes" } else { "" };
+        format!("{}{}:{}:{}", op, v, fam, out)
     }
 
     fn watchdog_s(&self) -> u64 { 20 }
@@ -985,6 +1086,31 @@ fn gen_boundary_reduced(v: &mut Vec<String>, f: Fam) {
     // every next-hop form once per family
     for nh in NHS { v.push(line("split", f, &[format!("{}", hi)], &[format!("{}x3", lo), format!("{}", hi)], nh, 11)); }
 }
+
+/// the value-carrying form of a size-only line: every NLRI as `=<hex>` of the octets the size-only
+/// line stands for (same values, so the two lines describe the same builder)
+fn concretize(l: &str) -> Option<String> {
+    let c = parse_line(l)?;
+    if c.vals.is_some() { return None; }
+    let w: Vec<&str> = l.split(' ').collect();
+    let n = w.len();
+    let ia = w.iter().position(|t| *t == "ann")?;
+    let tok = |raw: Vec<u8>| format!("={}", hex(&raw));
+    let wd = match &c.wd {
+        None => "-".to_string(),
+        Some(v) if v.is_empty() => "e".to_string(),
+        Some(v) => v.iter().enumerate().map(|(i, s)| tok(ref_nlri(c.fam, *s, 1_000_000 + i))).collect::<Vec<_>>().join(" "),
+    };
+    // a line without NLRI cannot be marked as value-carrying
+    if c.ann.is_empty() && c.wd.as_ref().map_or(true, |v| v.is_empty()) { return None; }
+    let ann = if c.ann.is_empty() { "-".to_string() } else {
+        c.ann.iter().enumerate().map(|(i, s)| tok(ref_nlri(c.fam, *s, i))).collect::<Vec<_>>().join(" ") };
+    let _ = ia;
+    Some(format!("{} {} wd {} ann {} nh {} attrs {}", w[0], w[1], wd, ann, w[n - 3], w[n - 1]))
+}
+
+/// number of NLRI a size-only line holds (0 if it does not parse)
+fn nlri_count(l: &str) -> usize { parse_line(l).map_or(0, |c| c.ann.len() + c.wd.map_or(0, |v| v.len())) }
 
 fn gen(rng: &mut Rng, tier: Tier) -> Vec<String> {
     let mut v: Vec<String> = Vec::new();
@@ -1155,6 +1281,45 @@ fn gen(rng: &mut Rng, tier: Tier) -> Vec<String> {
         };
         let sfx = match rng.below(30) { 0 => "+mp14", 1 => "+mp15", 2 => "+mp", _ => "" };
         v.push(format!("{}{}", line(op, f, &wd, &ann, nh, attrs), sfx));
+    }
+    // ---- value-carrying lines (the model's byte image against the real octets): every NLRI type's
+    // next-hop forms, attribute sizes and MP header forms, one line in `every` of everything above (at most 3000 NLRI a
+    // line), and the malformed value tokens
+    let every = match tier { Tier::Quick => 9, Tier::Thorough => 40 };
+    let mut cv: Vec<String> = Vec::new();
+    for f in all_fams() {
+        let (lo, hi) = size_range(f);
+        let hi = fix_size(f, hi.min(36));
+        for nh in NHS {
+            cv.push(line("split", f, &[format!("{}", hi)], &[format!("{}x3", lo), format!("{}", hi)], nh, 11));
+            cv.push(line("iter", f, &[], &[format!("{}x2", hi)], nh, 300));
+        }
+        let nat = natural_nhs(f)[0];
+        for attrs in [0usize, 3, 4, 7, 11, 12, 99, 100, 255, 258, 259, 260, 263, 270, 1000, 3000] {
+            cv.push(line("split", f, &[format!("{}x2", lo)], &[format!("{}", hi), format!("{}", lo)], nat, attrs));
+        }
+        // the header forms of the two MP attributes: value lengths 255 / 256 and the PDU limit
+        // (MP_UNREACH_NLRI value = 3 + NLRI octets, MP_REACH_NLRI value = 4 + next hop with its length octet + NLRI octets)
+        for v in [254usize, 255, 256, 257] {
+            cv.push(line("single", f, &fill(f, v - 3, hi), &[], "-", 0));
+            cv.push(line("single", f, &[], &fill(f, v - 4 - nh_len(f, nat), hi), nat, 0));
+            cv.push(line("split", f, &fill(f, v - 3, lo), &fill(f, v - 4 - nh_len(f, nat), lo), nat, 64));
+        }
+        for t in [4000usize, 4060] {
+            cv.push(line("single", f, &fill(f, t, hi), &[], "-", 0));
+            cv.push(line("single", f, &[], &fill(f, t, hi), nat, 0));
+            cv.push(line("split", f, &fill(f, t, lo.max(4)), &fill(f, t, hi), nat, 64));
+        }
+    }
+    for (i, l) in v.iter().enumerate() { if i % every == 0 && nlri_count(l) <= 3000 { cv.push(l.clone()); } }
+    for l in cv { if let Some(x) = concretize(&l) { v.push(x); } }
+    for l in ["split v4u wd =0 ann - nh - attrs 0", "split v4u wd = ann - nh - attrs 0", "split v4u wd =18 ann 1 nh - attrs 0",
+              "split v4u wd 1 ann =00 nh - attrs 0", "split v4u wd =21ff ann - nh - attrs 0", "split v4u wd =18x0 ann - nh - attrs 0",
+              "split v4u wd =00x ann - nh - attrs 0", "split v4u wd =00x2x2 ann - nh - attrs 0", "split v4u wd =180A0000 ann - nh - attrs 0",
+              "split v4u wd =180a0100 ann - nh - attrs 0", "split v4u wd =180a01 ann - nh - attrs =0", "split v4ua wd =180a0100 ann - nh - attrs 0",
+              "split v4u wd =180a0101 ann - nh - attrs 0", "split v6u wd =81 ann - nh - attrs 0", "split v4u wd =- ann - nh - attrs 0",
+              "split =v4u wd - ann - nh - attrs 0", "split v4u wd - ann - nh =v4 attrs 0", "split v4u wd e ann =00 nh - attrs 0"] {
+        v.push(s(l));
     }
     v
 }
